@@ -114,9 +114,12 @@ def run_beam(i, case):
         if field == "axial":
             disp = np.outer(amp * s + 0.002, t)  # rigid offset: every prescribed value is non-zero
             rot = np.zeros((len(s), 3))
-        else:
+        elif field == "curvature":
             disp = np.outer(amp * s**2 / 2, ny)
             rot = np.outer(amp * s, nz)  # rotation vector about local z
+        else:  # curvature_y: deflection along local z, rotation vector t x (w' nz) = -w' ny
+            disp = np.outer(amp * s**2 / 2, nz)
+            rot = np.outer(-amp * s, ny)
         if dim == 1:
             U[:, 0] = disp[:, 0]
             unk = ["x"]
@@ -139,7 +142,7 @@ def run_beam(i, case):
     sc = max(np.abs(U).max(), 1e-12)
     if np.abs(u - U).max() > 1e-8 * sc:
         viol.append((f"field/{key}", f"{key}: constant {field} state prescribed at both ends is not reproduced at the interior nodes (max relative error {np.abs(u - U).max() / sc:.3g})", {"case": case}))
-    res = "N" if field == "axial" else "Mz"
+    res = {"axial": "N", "curvature": "Mz", "curvature_y": "My"}[field]
     try:
         val = np.asarray(sim.Result(res, nodeValues=False)).ravel()
         exp = f2(case["force"])
